@@ -12,7 +12,10 @@ RULE = ("all histories over the full menu (moves, clear arcs, E-only and firmwar
         "regions present and exclusion disabled by the first command; both values of g90InfluencesExtruder; "
         "non-trivial = a command of the property's dialect was observed being forwarded verbatim; "
         "distinct = canonical states")
-ASSUMPTIONS = ["premise for arcs strengthened to '>= 2 mm clear of every region' because sampled points decide",
+ASSUMPTIONS = ["TRACKPROBE events build, on a copy of the world, the program 'add a 0.45 mm disc where the filter believes the "
+               "tool to be (only if that is > 1 mm from the true position), then move in Z only' and judge it "
+               "behaviourally; the tracked position is only the hint where to put the disc",
+               "premise for arcs strengthened to '>= 2 mm clear of every region' because sampled points decide",
                "G92 X/Y/Z is explored in the dedicated c02-g92 scenario (known finding D16)"]
 
 COMMON = [("RETRACT",), ("RECOVER",), ("FWRETRACT",), ("FWRECOVER",), ("ESET0",), ("ZMOVE", 2), ("ZMOVE", 1),
@@ -38,14 +41,14 @@ def scenarios(tier):
     out = []
     for g90e in (False, True):
         tag = "-g90e" if g90e else ""
-        base = dict(prop="C02", monitors=("c02",), g90e=g90e, emax=1)
+        base = dict(prop="C02", monitors=("c02",), g90e=g90e, emax=1, probe_kinds=("believed",))
         out.append(Scenario("c02-noregions" + tag, World, dict(base, regions=[]), OUT + IN + COMMON,
                             max_states=60000 if q else 2000000))
         out.append(Scenario("c02-clear" + tag, World, dict(base, regions=["R", "D"]), OUT + COMMON,
                             max_states=60000 if q else 2000000))
         out.append(Scenario("c02-clear-axis" + tag, World, dict(base, regions=["R"], guard=stays_clear, key_depth=False),
                             [("TRAVEL", "O1"), ("TRAVEL", "O2"), ("PRINT", "O3"), ("TRAVEL", "N"), ("RETRACT",),
-                             ("RECOVER",)] + AXIS,
+                             ("RECOVER",), ("TRACKPROBE",)] + AXIS,
                             max_states=60000 if q else 2000000,
                             note="single-axis moves, the bed origin (coordinates exactly 0) and disable/enable, every "
                                  "destination kept outside the region by the scenario guard"))
@@ -54,8 +57,10 @@ def scenarios(tier):
                             max_states=60000 if q else 2000000))
         out.append(Scenario("c02-modes" + tag, World, dict(base, regions=["R"]),
                             [("TRAVEL", "O1"), ("TRAVEL", "O2"), ("PRINT", "O3"), ("TRAVEL", "H"), ("RETRACT",),
-                             ("RECOVER",), ("ZMOVE", 2), ("RAW", "M117 hello")] + MODES,
-                            max_depth=5 if q else 8, max_states=3000000))
+                             ("RECOVER",), ("ZMOVE", 2), ("RAW", "M117 hello"), ("EV", "PRINT_CANCELLED"),
+                             ("NEWPRINT",), ("TRAVEL", "Q"), ("TRACKPROBE",)] + MODES,
+                            max_depth=5 if q else 7, max_states=3000000,
+                            note="units/positioning modes, and a second print after a print left in some mode"))
     out.append(Scenario("c02-g92", World, dict(prop="C02", monitors=("c02",), regions=["R"], emax=1, guard=stays_clear),
                         [("TRAVEL", "O1"), ("TRAVEL", "O2"), ("PRINT", "O3"), ("TRAVEL", "N"), ("G92XYZ", 16, -8, 3)],
                         max_depth=4, finding="D16",
